@@ -630,3 +630,66 @@ def check_c16(ctx):
 
 
 CHECKS.update({"C05": check_c05, "C06": check_c06, "C07": check_c07, "C08": check_c08, "C13": check_c13, "C16": check_c16})
+
+
+# ------------------------------------------------------------------ C10 key-type catalogue, C12 twins
+
+KEY_CATALOGUE = ["string", "int", "int8", "int16", "int32", "int64", "uint8", "uint16", "uint32", "uint64", "uintptr", "float64", "float32",
+                 "complex128", "bool", "pointer", "array", "strarray", "padstruct", "nested", "any", "keyer"]
+
+
+def check_c10(ctx):
+    rng = random.Random(lib.seed() * 257 + 3)
+    nper = 4 if not ctx.thorough else 40
+    weights = gen.MAP_WEIGHTS + [("Scribble", 4)]
+    for hasher in ("default", "collide-all", "collide-bucket"):
+        progs = []
+        for kt in KEY_CATALOGUE:
+            for i in range(nper):
+                nk = 2 if kt == "bool" else rng.choice([4, 9, 14, 30])
+                keys = ["k%d" % j for j in range(0 if kt != "bool" else 1, nk + (0 if kt != "bool" else 1))]  # k0 = zero value / nil / "" / +-0
+                p = gen.map_program(rng, "MapOf", "cat:" + kt, "string", length=70, keys=keys, weights=weights, note="%s/%s#%d" % (kt, hasher, i))
+                if hasher == "collide-all":
+                    p["pin"] = {"keys": {}, "all": [5, 1], "avoid": []}
+                elif hasher == "collide-bucket":
+                    p["pin"] = {"keys": {k: [5, (j % 100) + 1] for j, k in enumerate(keys)}, "avoid": []}
+                progs.append(p)
+        run_seq(ctx, progs, "Trace_MapSeq", "C10", "MapOf key-type catalogue, %s hasher" % hasher)
+    # CacheOf over the same catalogue (default hasher)
+    crng = random.Random(lib.seed() * 263 + 1)
+    cprogs = []
+    for kt in KEY_CATALOGUE:
+        for i in range(2 if not ctx.thorough else 12):
+            nk = 2 if kt == "bool" else 6
+            p = gen.cache_program(crng, "CacheOf", "cat:" + kt, "string", unit=1, length=60, nkeys=nk, note="cache %s#%d" % (kt, i))
+            cprogs.append(p)
+    run_seq(ctx, cprogs, "Trace_CacheSeq", "C10", "CacheOf key-type catalogue")
+    ctx.cov["key_type_catalogue"] = KEY_CATALOGUE
+    ctx.assumptions += ["the quantifier over key types is carried by the finite catalogue listed in evidence; each abstract key is presented in two == representations alternately (fresh string memory, +0/-0, dirty struct padding, separately boxed interface values), pointees are mutated by Scribble steps",
+                        "TLA+ has no Go types: MapSem judges on abstract key names, i.e. results must depend on the == class only; NaN keys are excluded by the property"]
+
+
+def check_c12(ctx):
+    # caches: every sequential program on Cache and CacheOf[string,any] must give identical observations
+    n, length = (60, 120) if not ctx.thorough else (1200, 300)
+    base = cache_programs(ctx, n, length, units=(1, 1, 1_000_000_000))
+    base += small_scope_programs(2, "Cache", "", "")
+    a = run_seq(ctx, [instantiate(p, "Cache", "", "") for p in base], "Trace_CacheSeq", "C12", "Cache")
+    b = run_seq(ctx, [instantiate(p, "CacheOf", "string", "any") for p in base], "Trace_CacheSeq", "C12", "CacheOf[string,any]")
+    compare_runs(ctx, a, b, "cache-twins", "Cache vs CacheOf[string,any]")
+    rng = random.Random(lib.seed() * 7 + 12)
+    progs = map_programs_c11(ctx, rng)
+    a = run_seq(ctx, [instantiate(p, "Map", "", "") for p in progs], "Trace_MapSeq", "C12", "Map")
+    b = run_seq(ctx, [instantiate(p, "MapOf", "string", "any") for p in progs], "Trace_MapSeq", "C12", "MapOf[string,any]")
+    compare_runs(ctx, a, b, "map-twins", "Map vs MapOf[string,any]")
+    # concurrent twins: the same scenarios under the same replayable strategies; both are decided by the same machine
+    strat = [{"kind": "pct", "depth": 3, "runs": 300 if not ctx.thorough else 5000, "seed": lib.seed()}]
+    scs = []
+    for (kind, kt, vt) in [("Cache", "", ""), ("CacheOf", "string", "any")]:
+        for s in strat:
+            scs += scen.cache_families(kind, kt, vt, s)
+    run_conc(ctx, scs, "Trace_CacheLin", "C12", "cache twins (concurrent)")
+    ctx.assumptions += ["twin equality is event by event (results, callback ledger as sets per call, Items/Range as sets, Count/Size, physical content); iteration order and the subset an early-stopping Range visits are layout dependent and excluded"]
+
+
+CHECKS.update({"C10": check_c10, "C12": check_c12})
